@@ -807,6 +807,8 @@ class Unit:
             # The resulting quantity may get quantized. Therefore we
             # have to calculate the final amount before creating the result!
             amnt, unit = self * other.unit
+            if unit is None:
+                return other.amount * amnt
             return (other.amount * amnt) * unit
         return NotImplemented
 
@@ -906,7 +908,9 @@ class Unit:
             # The resulting quantity may get quantized. Therefore we
             # have to calculate the final amount before creating the result!
             amnt, unit = self / other.unit
-            return (other.amount * amnt) * unit
+            if unit is None:
+                return amnt / other.amount
+            return (amnt / other.amount) * unit
         return NotImplemented
 
     def __rtruediv__(self, other: Any) -> Quantity:
@@ -1628,11 +1632,15 @@ class Quantity(metaclass=QuantityMeta):
             # The resulting quantity may get quantized. Therefore we
             # have to calculate the final amount before creating the result!
             amnt, unit = self.unit * other.unit
+            if unit is None:
+                return self.amount * other.amount * amnt
             return (self.amount * other.amount * amnt) * unit
         if isinstance(other, Unit):
             # The resulting quantity may get quantized. Therefore we
             # have to calculate the final amount before creating the result!
             amnt, unit = self.unit * other
+            if unit is None:
+                return self.amount * amnt
             return (self.amount * amnt) * unit
         if isinstance(other, Real):
             return self.__class__(self.amount * Decimal(other), self.unit)
